@@ -22,8 +22,8 @@ C.INLINE.add("adcgen.rules:Rules.__init__")
 BLOCKS = c04.BLOCKS
 
 
-def new_sm(vc):
-    isr = c04.new_isr(vc)
+def new_sm(vc, variant="pp"):
+    isr = c04.new_isr(vc, variant)
     gs = isr.attrs["gs"]
     return Inst(SM, {"isr": isr, "gs": gs, "h": gs.attrs["h"], "indices": Struct("Indices")})
 
@@ -187,12 +187,16 @@ class AmplitudeVector(Contract):
 class MvpBlockOrder(Contract):
     key = SM + ".mvp_block_order"
     props = ["C03"]
-    CASES = [("ph", "ph,ph", "ia"), ("ph", "ph,pphh", "ia"), ("pphh", "pphh,ph", "ijab"),
-             ("pphh", "pphh,pphh", "ijab"), ("ph", "pphh,ph", "ia"), ("ph", "ph,ph", "ia,jb")]
+    # the last entry is the ADC variant: classes of the non PP variants have
+    # different numbers of occupied and virtual indices
+    CASES = [("ph", "ph,ph", "ia", "pp"), ("ph", "ph,pphh", "ia", "pp"), ("pphh", "pphh,ph", "ijab", "pp"),
+             ("pphh", "pphh,pphh", "ijab", "pp"), ("ph", "pphh,ph", "ia", "pp"), ("ph", "ph,ph", "ia,jb", "pp"),
+             ("h", "h,phh", "i", "ip"), ("phh", "phh,phh", "ija", "ip"), ("pph", "pph,p", "iab", "ea"),
+             ("hh", "hh,hh", "ij", "dip"), ("p", "p,pph", "a", "ea")]
 
     def setup(self, vc):
-        space, block, idx = self.CASES[vc.choose(len(self.CASES), "case")]
-        return {"self": new_sm(vc), "order": Sym(vc.fresh_int("order")), "space": space,
+        space, block, idx, variant = self.CASES[vc.choose(len(self.CASES), "case")]
+        return {"self": new_sm(vc, variant), "order": Sym(vc.fresh_int("order")), "space": space,
                 "block": block, "indices": idx, "subtract_gs": Sym(vc.fresh_bool("subtract_gs"))}
 
     def raises(self, vc, a):
